@@ -1507,6 +1507,21 @@ def correspondence(ctx):
                       "yname": "", "xunit": "", "yunit": "", "entry": "class", "renders": 1, "settings_first": True}
                 cases.append(({"seed": 1, "objects": [d], "settings": st, "kind": "mask-grid"}, [0], "mask-grid"))
                 n_grid += 1
+    # exhaustive small scope of the histogram keywords the library forwards: every combination of binning
+    # (integer / equal-width sequence / unequal-width sequence / integer with range) x density x weights x cumulative
+    hs = [-1.5, -1.0, -1.0, 0.0, 0.25, 0.5, 0.5, 0.5, 1.0, 2.0, 2.5, 4.0]
+    hw = [1.0, 0.5, 2.0, 1.0, 0.25, 4.0, 1.0, 0.0, 2.0, 1.0, 0.5, 1.0]
+    n_hgrid = 0
+    for hb, hr in ((4, None), ([-2.0, 0.0, 2.0, 4.0], None), ([-2.0, -1.0, 0.0, 0.5, 1.0, 4.0], None), (3, [-1.0, 2.0])):
+        for dens in (None, True):
+            for wts in (None, hw):
+                for cum in (None, True):
+                    h = {"kind": "hist", "samples": hs, "bins": hb, "range": hr, "label": None, "form": "list",
+                         "density": dens, "weights": wts, "cumulative": cum}
+                    st = {"error_bars": True, "residuals": False, "legend": False, "xrange": None, "title": "", "xname": "",
+                          "yname": "", "xunit": "", "yunit": "", "entry": "class", "renders": 1, "settings_first": True}
+                    cases.append(({"seed": 1, "objects": [h], "settings": st, "kind": "hist-grid"}, [0], "hist-grid"))
+                    n_hgrid += 1
     sets = []
     for j in range(n_sets):
         k = rng.choice([2, 2, 3, 3] if ctx.quick else [2, 3, 3, 3, 4])
@@ -1625,6 +1640,8 @@ def correspondence(ctx):
                     "xlabel": c[3]["obs"].get("xlabel"), "legend": c[3]["obs"].get("legend")} for c in usable[:4]]
     res.extra["order_sets"] = len(sets)
     res.extra["mask_grid_exhaustive"] = "{} (low, high) pairs over {} for the data x = [0, 1, 2, 1]".format(n_grid, grid)
+    res.extra["hist_keyword_grid_exhaustive"] = "{} combinations: binning (integer, equal sequence, unequal sequence, integer+range) " \
+                                                "x density x weights x cumulative on 12 samples".format(n_hgrid)
     res.extra["histories_with_an_early_render"] = sum(1 for c in usable if c[0]["settings"].get("early_render"))
     res.extra["rendered_twice"] = sum(1 for c in usable if c[0]["settings"].get("renders", 1) > 1)
     res.extra["rendered_ok"] = len(ok_cases)
